@@ -101,10 +101,13 @@ def cases(rng, n):
         elif kind == 3:    # moment with spread close to F_max
             T = rng.uniform(0, 4) * F_max
             M = rng.standard_normal(3) * np.array([l, l, Cm]) * F_max
+        elif kind == 5:    # no (or negative) thrust demanded, a moment that is achievable alone: thrust must be RAISED by the least amount
+            T = float(rng.choice([0.0, -0.3, -2.0, 1e-3])) * F_max
+            M = rng.standard_normal(3) * np.array([l, l, Cm]) * F_max * 0.15
         else:
             T = None
             M = None
-        out.append((F_max, l, Cm, Ct, T, M, ["nominal", "saturated", "zero-moment", "spread", "boundary", "boundary"][kind]))
+        out.append((F_max, l, Cm, Ct, T, M, ["nominal", "saturated", "zero-moment", "spread", "boundary", "no-thrust"][kind]))
     return out
 
 
